@@ -52,10 +52,12 @@ def run(ctx):
     def prove():
         proofs.update(R.drive("VersionedTree_isim.cfg", sims_l, SIM_VARIANTS[:1], mode="proofs", proofs=3, bitflips=0 if quick else 24))
     vt.parallel([
-        lambda: R.drive(ecfg, edges, EDGE_VARIANTS, checklast=1, hashes=True),
+        lambda: R.drive(ecfg, edges, EDGE_VARIANTS, checklast=1, hashes=True, proofcheck=True),
         lambda: R.drive(rcfg, redges, EDGE_VARIANTS, checklast=1),
-        lambda: R.drive("VersionedTree_isims.cfg", sims_s, SIM_VARIANTS, hashes=True),
-        lambda: R.drive("VersionedTree_isim.cfg", sims_l, SIM_VARIANTS, hashes=True),
+        # proofcheck: on every version step, for every retained version, the tree's own membership / non-membership proofs
+        # of a dense sample of keys must verify through ics23 against that version's root hash (in-process and after Reopen)
+        lambda: R.drive("VersionedTree_isims.cfg", sims_s, SIM_VARIANTS, hashes=True, proofcheck=True),
+        lambda: R.drive("VersionedTree_isim.cfg", sims_l, SIM_VARIANTS, hashes=True, proofcheck=True),
         prove,
         # root hash = function of the history: families of behaviours sharing the hash-relevant script (as C24)
         lambda: fam.update(R.drive("VersionedTree_ifam.cfg", members, SIM_VARIANTS, mode="family", svsample=2)),
@@ -65,6 +67,12 @@ def run(ctx):
         ctx.cov[k] = int(proofs.get(k, 0))
     ctx.cov["hash_families"] = {k: int(fam.get(k, 0)) for k in ("families", "positions", "cross_comparisons", "min_members")}
     ctx.cov["iavl_prune_refused_after_restart"] = int(R.sum.get("iavl_prune_refused_after_restart", 0))
+    for k in ("replays_saved_idempotently", "proofs_through_replayed_nodes", "version_proofs_verified"):
+        ctx.cov[k] = int(R.sum.get(k, 0))
+    # vacuity: LoadVersion(older) + identical replay accepted by SaveVersion, then >= 1 new version from the same session,
+    # then a proof through a node the replay wrote, verified against a later version's root
+    if not ctx.violations and ctx.cov["proofs_through_replayed_nodes"] < 1:
+        raise vlib.Inconclusive("VACUOUS", "no proof through a replayed node after an idempotent save (replays saved idempotently: %d)" % ctx.cov["replays_saved_idempotently"])
     ctx.cov["exhaustive"] = True
     ctx.cov["variants"] = ["memdb / goleveldb", "cache 0 / 1 / 10000", "fast storage off (as the gno stores) / on / toggled at Reopen"]
     ctx.log("replayed %d behaviours, %d steps; %d + %d proofs, %d mutations rejected" % (
